@@ -246,3 +246,38 @@ Definition stream_write := write entry parse_rec_entry utf8_valid.
 Definition stream_init : st entry := mkst entry [] [].
 (* Display for SummaryStream: each entry followed by a blank line *)
 Definition print_stream (es : list entry) : str := flat_map (fun e => print_entry e ++ [10]) es.
+
+(* ================= canonical text (executable predicate; theorems in SummaryProofs) ================= *)
+(* 'VAR=value' split at the FIRST '=' with VAR one of the 23 names *)
+Definition line_kv (l : str) : option (var * str) :=
+  match split_once 61 l with
+  | Some (k, x) => match parse_name k with Some v => Some (v, x) | None => None end
+  | None => None
+  end.
+Definition term_lines (ls : list str) : str := concat (map (fun l => l ++ [10]) ls).
+Definition line_var (l : str) : option var := match line_kv l with Some (v, _) => Some v | None => None end.
+Definition lines_of (v : var) (ls : list str) : list str :=
+  filter (fun l => match line_var l with Some w => var_eqb w v | None => false end) ls.
+Fixpoint eql (a b : list str) : bool :=
+  match a, b with [], [] => true | x :: a', y :: b' => eqs x y && eql a' b' | _, _ => false end.
+(* the lines come grouped by variable, variables in the fixed order, and a
+   single-valued variable has at most one line *)
+Definition grouped (ls : list str) : bool :=
+  eql ls (flat_map (fun v => lines_of v ls) all_vars) &&
+  forallb (fun v => match kind_of v with KA => true | _ => Nat.leb (List.length (lines_of v ls)) 1 end) all_vars.
+(* 'VAR=value' with a known VAR; integers in the form Display prints *)
+Definition line_canon (l : str) : bool :=
+  match line_kv l with
+  | Some (v, x) => match kind_of v with
+                   | KI => match parse_i64 x with Some z => eqs (print_z z) x | None => false end
+                   | _ => true
+                   end
+  | None => false
+  end.
+Definition has_var (ls : list str) (v : var) : bool :=
+  existsb (fun l => match line_var l with Some w => var_eqb w v | None => false end) ls.
+Definition canonical_lines (ls : list str) : bool :=
+  forallb line_canon ls && grouped ls && forallb (has_var ls) required.
+(* the text is its lines, each ended by one LF (no CRLF, no missing final newline) *)
+Definition is_canonical (t : str) : bool := eqs t (term_lines (lines t)) && canonical_lines (lines t).
+
